@@ -42,6 +42,32 @@ fn main() {
             _ => i += 1,
         }
     }
+    // --replay <file>: re-run the exploration of the tier recorded in the artefact and report
+    // whether the recorded violation (key + scenario) occurs again (mc_core::Report::finish)
+    if let Some(path) = &replay {
+        let doc: serde_json::Value = match std::fs::read_to_string(path).map_err(|e| e.to_string()).and_then(|t| serde_json::from_str(&t).map_err(|e| e.to_string())) {
+            Ok(d) => d,
+            Err(e) => {
+                eprintln!("MACHINERY-ERROR: cannot read replay artefact {path}: {e}");
+                std::process::exit(2);
+            }
+        };
+        if doc["property"].as_str() != Some(id.as_str()) {
+            eprintln!("MACHINERY-ERROR: replay artefact {path} belongs to property {}", doc["property"]);
+            std::process::exit(2);
+        }
+        let detail = doc["detail"].as_str().unwrap_or("");
+        let scen = detail.split(": ").next().unwrap_or("");
+        // SAFETY-free: single-threaded at this point
+        unsafe {
+            std::env::set_var("VERIF_REPLAY_KEY", doc["key"].as_str().unwrap_or(""));
+            std::env::set_var("VERIF_REPLAY_SCENARIO", if detail.contains(": ") { scen } else { "" });
+            std::env::set_var("VERIF_REPLAY_FILE", path);
+        }
+        if tier_arg.is_none() {
+            tier_arg = doc["tier"].as_str().map(|s| s.to_string());
+        }
+    }
     let tier = Tier::from_env_or(tier_arg.as_deref());
     if std::env::var("VERIF_SHOW_PANICS").is_err() {
         // panics of the code under test are caught and judged by the checks; keep stderr readable
